@@ -743,3 +743,71 @@ Example cli_regexes :
   length (calls_filters true (cli_calls {| cli_include := both; cli_exclude := none; cli_exclude_deprecated := false |})) = 1 /\
   length (calls_filters false (cli_calls {| cli_include := none; cli_exclude := both; cli_exclude_deprecated := true |})) = 3.
 Proof. vm_compute. split; reflexivity. Qed.
+
+(* ------------------------------------------------------------------------------------------------ *)
+(* schema[path] (MethodMap) and the unspecified methods of the coverage phase                         *)
+Lemma method_map_ignores_filters fs fs' item :
+  method_map_keys fs item = method_map_keys fs' item /\ unspecified_methods fs item = unspecified_methods fs' item.
+Proof. split; reflexivity. Qed.
+
+Lemma unspecified_not_key fs item m : In m (unspecified_methods fs item) -> ~ In m (method_map_keys fs item).
+Proof.
+  unfold unspecified_methods. intros H. apply filter_In in H. destruct H as [_ H]. apply negb_true_iff in H.
+  intros Hin. apply existsb_str_in in Hin. rewrite Hin in H. discriminate.
+Qed.
+
+Lemma str_eqb_sym a b : str_eqb a b = str_eqb b a.
+Proof.
+  destruct (str_eqb a b) eqn:E1, (str_eqb b a) eqn:E2; try reflexivity.
+  - apply str_eqb_spec in E1. subst. rewrite str_eqb_refl in E2. discriminate.
+  - apply str_eqb_spec in E2. subst. rewrite str_eqb_refl in E1. discriminate.
+Qed.
+
+Lemma ci_insert_fresh k acc :
+  existsb (fun x => str_eqb (lower_ascii x) (lower_ascii k)) acc = false -> ci_insert k acc = acc ++ [k].
+Proof.
+  induction acc as [|x r IH]; cbn [existsb ci_insert app]; [reflexivity|].
+  destruct (str_eqb (lower_ascii x) (lower_ascii k)); cbn [orb]; [discriminate|]. intros H. rewrite (IH H). reflexivity.
+Qed.
+
+Lemma ci_distinct_fresh acc k r :
+  ci_distinct (acc ++ k :: r) = true -> existsb (fun x => str_eqb (lower_ascii x) (lower_ascii k)) acc = false.
+Proof.
+  induction acc as [|a acc IH]; cbn [app ci_distinct existsb]; [reflexivity|].
+  intros H. apply andb_true_iff in H. destruct H as [H1 H2]. apply negb_true_iff in H1.
+  rewrite existsb_app in H1. apply orb_false_iff in H1. destruct H1 as [_ H1]. cbn [existsb] in H1.
+  apply orb_false_iff in H1. destruct H1 as [H1 _]. rewrite str_eqb_sym, H1. cbn [orb]. apply IH. exact H2.
+Qed.
+
+Lemma ci_keys_fold l : forall acc,
+  ci_distinct (acc ++ l) = true -> fold_left (fun acc k => ci_insert k acc) l acc = acc ++ l.
+Proof.
+  induction l as [|k r IH]; intros acc H; cbn [fold_left]; [rewrite app_nil_r; reflexivity|].
+  rewrite (ci_insert_fresh _ _ (ci_distinct_fresh _ _ _ H)).
+  rewrite IH; rewrite <- app_assoc; [reflexivity | exact H].
+Qed.
+
+Lemma ci_keys_distinct l : ci_distinct l = true -> ci_keys l = l.
+Proof. intros H. unfold ci_keys. apply (ci_keys_fold l []). exact H. Qed.
+
+(* a method the coverage phase adds as unspecified is not a key of the path item: it can never be the method of a
+   defined operation, selected or not *)
+Lemma unspecified_not_defined fs item m :
+  ci_distinct (map fst item) = true -> In m (unspecified_methods fs item) -> ~ In m (map fst item).
+Proof.
+  intros Hd H Hin. apply (unspecified_not_key _ _ _ H). unfold method_map_keys. rewrite (ci_keys_distinct _ Hd). exact Hin.
+Qed.
+
+Example unspecified_example :
+  let item : path_item := [([103;101;116]%N, {| od_raw := JNull; od_resolved := JNull |});
+                           ([100;101;108;101;116;101]%N, {| od_raw := JNull; od_resolved := JNull |})] in
+  ci_distinct (map fst item) = true /\ length (unspecified_methods fs_empty item) = 5.
+Proof. vm_compute. split; reflexivity. Qed.
+
+(* F5: two keys equal up to case *)
+Lemma unspecified_not_defined_refuted :
+  let item : path_item := [([112;111;115;116]%N, {| od_raw := JNull; od_resolved := JNull |});
+                           ([80;111;115;116]%N, {| od_raw := JNull; od_resolved := JNull |})] in
+  ci_distinct (map fst item) = false /\ In [112;111;115;116]%N (unspecified_methods fs_empty item) /\
+  In [112;111;115;116]%N (map fst item) /\ is_http_method [112;111;115;116]%N = true.
+Proof. vm_compute. repeat split; auto. Qed.
